@@ -89,6 +89,7 @@ def run(R):
     gm = chrun.gen_module('C13_conditions', src)
     targets = [f'{gm}.{fn}' for _, fn, _ in names] + [f'{gm}.reach_{fn}' for _, fn, _ in names]
     res = chrun.run(targets, per_condition_timeout=170 if quick else 900, workers=8)
+    floatcut.require_verdicts(res)
     for kind, fn, meta in names:
         rv, rmsg, rdt = res[f'{gm}.reach_{fn}']
         reach = rv == 'refuted' and 'Error' not in rmsg
